@@ -77,7 +77,7 @@ class AsyncEngine(BaseEngine):
 
     async def _trigger(self, trigger_data: TriggerData):
         executed = False
-        if trigger_data.event == "__initial__":
+        if trigger_data is self._initial_trigger:
             transition = self._initial_transition(trigger_data)
             await self._activate(trigger_data, transition)
             return self._sentinel
